@@ -346,6 +346,44 @@ def C03_unreadable_certificate_treated_as_unpinned():
         return asyncio.run(go())
     finally: shutil.rmtree(d)
 
+@witness
+def C06_large_body_truncated_on_pyopenssl_backend():
+    """A 20000-byte body through TLSServerProtocol/TLSTransportWrapper: the client must receive all of it."""
+    import tlsmem
+    from nauyaca.server.protocol import GeminiServerProtocol
+    from nauyaca.protocol.response import GeminiResponse
+    body = bytes(range(256)) * 80   # 20480 bytes
+    async def go():
+        pair = tlsmem.Pair(lambda: GeminiServerProtocol(lambda req: GeminiResponse(20, "application/octet-stream", body)))
+        pair.handshake()
+        pair.client_send(b"gemini://localhost/\r\n"); pair.to_server()
+        got = pair.client_read_all()
+        if pair.server.inner_protocol and pair.server.inner_protocol.timeout_handle:
+            pair.server.inner_protocol.timeout_handle.cancel()
+        return got
+    got = asyncio.run(go())
+    return got != b"20 application/octet-stream\r\n" + body
+
+@witness
+def C12_failed_replace_import_empties_store():
+    from nauyaca.security.tofu import TOFUDatabase
+    from pathlib import Path
+    import sqlite3
+    d = tempfile.mkdtemp(dir="/var/tmp")
+    try:
+        db = TOFUDatabase(Path(d) / "t.db")
+        con = sqlite3.connect(str(Path(d) / "t.db"))
+        con.execute("INSERT INTO known_hosts VALUES ('keep.example', 1965, 'sha256:" + "a" * 64 + "', 't0', 't0')"); con.commit(); con.close()
+        bad = Path(d) / "bad.toml"
+        bad.write_text('[hosts."x.example:1965"]\nhostname = "x.example"\nport = 1965\nfingerprint = "not-a-fingerprint"\nfirst_seen = "t"\nlast_seen = "t"\n')
+        try:
+            db.import_toml(bad, merge=False)
+            return True       # a malformed file must not import
+        except ValueError:
+            pass
+        return len(db.list_hosts()) != 1
+    finally: shutil.rmtree(d)
+
 # MAIN
 if __name__ == "__main__":
     names = sys.argv[1:] or sorted(W)
